@@ -149,6 +149,9 @@ func (r region) contains(i Term) Term { return And(Le(r.Lo, i), Lt(i, r.Hi)) }
 func (vc *FuncVC) execCall(st *State, reach Term, ins *ssa.Call) {
 	common := ins.Common()
 	rt := ins.Type()
+	if common.IsInvoke() && vc.execFmtState(st, reach, ins) {
+		return
+	}
 	if common.IsInvoke() {
 		vc.note("interface method call %s modelled as pure with unconstrained result at %s", common.Method.Name(), vc.pos(ins.Pos()))
 		vc.bigWrites++ // an unknown method: a by-value BigInt copy in this function is not provably read-only
@@ -209,6 +212,74 @@ func (vc *FuncVC) execCall(st *State, reach Term, ins *ssa.Call) {
 	}
 	vc.havocAll(st)
 	vc.vals[ins] = vc.freshVal("call_"+callee.Name(), rt)
+}
+
+// isFmtState: the interface type fmt.State
+func isFmtState(t types.Type) bool {
+	n, ok := t.(*types.Named)
+	return ok && n.Obj().Name() == "State" && n.Obj().Pkg() != nil && n.Obj().Pkg().Path() == "fmt"
+}
+
+// stateLog: the ghost output log of a fmt.State - everything written to it so far, as a byte slice (first cell, length)
+// kept in the ghost heap keys State.logp / State.logn under the interface value.
+func (g *Gen) stateLog(st *State, s Term) (Term, Term) {
+	return g.load(st, "State.logp", s, SInt), g.load(st, "State.logn", s, SInt)
+}
+
+// execFmtState models the methods of a fmt.State: Write appends to the ghost log (a new array holding the old log and
+// then the bytes written); Flag, Width and Precision are fixed attributes of the state (uninterpreted functions of it).
+func (vc *FuncVC) execFmtState(st *State, reach Term, ins *ssa.Call) bool {
+	common := ins.Common()
+	if !isFmtState(common.Value.Type()) {
+		return false
+	}
+	s := vc.scalar(common.Value)
+	decl := func(name, sig string) {
+		if !vc.declared[name] {
+			vc.declared[name] = true
+			vc.decls = append(vc.decls, "(declare-fun "+name+" "+sig+")")
+		}
+	}
+	switch common.Method.Name() {
+	case "Write":
+		b := vc.val(common.Args[0])
+		if b.Kind != vSlice {
+			return false
+		}
+		key := "cell.byte"
+		op, on := vc.stateLog(st, s)
+		bp, bn := b.Elems[0].T, b.Elems[1].T
+		vc.assume(And(Ge(on, IntLit(0)), Lt(on, BigLit(pow2big(62)))))
+		n := vc.define("lognew", Add(on, bn))
+		p := st.cnt
+		st.cnt = vc.define("cnt", Add(st.cnt, Add(n, IntLit(1))))
+		old := st.clone()
+		na := vc.havocRegion(st, key, SInt, p, Add(p, n), TTrue, "log")
+		oarr := vc.arr(old, key, SInt)
+		vc.nfresh++
+		j := Term{fmt.Sprintf("aj_%d", vc.nfresh), SInt}
+		c1 := Implies(And(Le(p, j), Lt(j, Add(p, on))), Eq(Select(na, j, SInt), Select(oarr, Add(op, Sub(j, p)), SInt)))
+		c2 := Implies(And(Le(Add(p, on), j), Lt(j, Add(p, n))), Eq(Select(na, j, SInt), Select(oarr, Add(bp, Sub(j, Add(p, on))), SInt)))
+		vc.assume(Term{fmt.Sprintf("(forall ((%s Int)) (! %s :pattern (%s)))", j.S, c1.S, Select(na, j, SInt).S), SBool})
+		vc.assume(Term{fmt.Sprintf("(forall ((%s Int)) (! %s :pattern (%s)))", j.S, c2.S, Select(na, j, SInt).S), SBool})
+		vc.store(st, "State.logp", s, p)
+		vc.store(st, "State.logn", s, n)
+		vc.vals[ins] = &Val{Kind: vTuple, Elems: []*Val{{T: bn, GoType: types.Typ[types.Int]}, {T: IntLit(0)}}, GoType: ins.Type()}
+		return true
+	case "Flag":
+		decl("uf_stflag", "(Int Int) Bool")
+		vc.vals[ins] = &Val{T: app(SBool, "uf_stflag", s, vc.scalar(common.Args[0])), GoType: ins.Type()}
+		return true
+	case "Width", "Precision":
+		f := "uf_st" + strings.ToLower(common.Method.Name())
+		decl(f, "(Int) Int")
+		decl(f+"_ok", "(Int) Bool")
+		w := app(SInt, f, s)
+		vc.assume(And(Le(Neg(BigLit(pow2big(62))), w), Lt(w, BigLit(pow2big(62)))))
+		vc.vals[ins] = &Val{Kind: vTuple, Elems: []*Val{{T: w, GoType: types.Typ[types.Int]}, {T: app(SBool, f+"_ok", s)}}, GoType: ins.Type()}
+		return true
+	}
+	return false
 }
 
 // havocAll forgets the whole heap (call to code without a contract).
@@ -435,6 +506,19 @@ func (vc *FuncVC) execLibrary(st *State, reach Term, ins *ssa.Call, callee *ssa.
 		r := vc.fresh("stridx", SInt)
 		vc.assume(And(Le(IntLit(-1), r), Lt(r, vc.strLen(vc.scalar(args[0])))))
 		vc.vals[ins] = &Val{T: r, GoType: rt}
+		return
+	case "fmt.Fprintf":
+		// writes an unknown text to its writer: for a fmt.State the ghost log becomes unknown (its old contents a prefix)
+		if mi, ok := args[0].(*ssa.MakeInterface); ok && isFmtState(mi.X.Type()) || isFmtState(args[0].Type()) {
+			sv := vc.scalar(args[0])
+			if ok {
+				sv = vc.scalar(mi.X)
+			}
+			vc.store(st, "State.logp", sv, vc.fresh("logp", SInt))
+			vc.store(st, "State.logn", sv, vc.fresh("logn", SInt))
+		}
+		vc.libHavoc(name)
+		vc.vals[ins] = vc.freshVal("lib_"+callee.Name(), rt)
 		return
 	case "errors.New", "fmt.Errorf":
 		c := vc.fresh("err", SInt)
@@ -705,6 +789,15 @@ func (vc *FuncVC) applyContract(st *State, reach Term, ins *ssa.Call, callee *ss
 		}
 		vc.assume(Implies(reach, And(Ge(r.T, pre.cnt), Le(Add(r.T, IntLit(sz)), st.cnt))))
 		vc.nonnil[ins] = true
+	}
+	// a callee that is handed a fmt.State may write to it: the ghost log of that state is unknown afterwards (what the
+	// callee's ensures clauses say about wlog(s) is then all that is known)
+	for i, a := range common.Args {
+		if isFmtState(ptypes[i]) {
+			sv := vc.scalar(a)
+			vc.store(st, "State.logp", sv, vc.fresh("logp", SInt))
+			vc.store(st, "State.logn", sv, vc.fresh("logn", SInt))
+		}
 	}
 	envPost := &Env{g: vc.Gen, cur: st, old: pre, vars: post}
 	for _, en := range fc.Ensures {
@@ -1050,7 +1143,7 @@ func (vc *FuncVC) frameChecks(st *State, reach Term, k int, pos token.Pos) {
 	}
 	sort.Strings(ks)
 	for _, key := range ks {
-		if strings.HasPrefix(key, "def.") {
+		if strings.HasPrefix(key, "def.") || strings.HasPrefix(key, "State.") {
 			continue // ghost
 		}
 		s := vc.keys[key]
